@@ -120,6 +120,34 @@ Proof.
   apply Permutation_sym, Permutation_middle.
 Qed.
 
+(* the association list is a finite map *)
+Lemma alookup_aremove_same k (l : amap) : alookup k (aremove k l) = None.
+Proof. apply notin_alookup, aremove_keys_notin. Qed.
+
+Lemma alookup_aremove_other k k' (l : amap) : k' <> k -> alookup k' (aremove k l) = alookup k' l.
+Proof.
+  intro Hne. induction l as [|[k1 w] l IH]; cbn; [reflexivity|].
+  destruct (N.eqb_spec k1 k) as [->|H1].
+  - destruct (N.eqb_spec k k') as [E|_]; [congruence|exact IH].
+  - cbn. destruct (k1 =? k'); [reflexivity|exact IH].
+Qed.
+
+Lemma spec_is_a_finite_map :
+  (forall k v l, alookup k (aset k v l) = Some v) /\
+  (forall k k' v l, k' <> k -> alookup k' (aset k v l) = alookup k' l) /\
+  (forall k l, alookup k (aremove k l) = None) /\
+  (forall k k' l, k' <> k -> alookup k' (aremove k l) = alookup k' l) /\
+  (forall k, alookup k [] = None).
+Proof.
+  split; [|split; [|split; [|split]]].
+  - intros k v l. unfold aset. cbn. now rewrite N.eqb_refl.
+  - intros k k' v l Hne. unfold aset. cbn.
+    destruct (N.eqb_spec k k') as [E|_]; [congruence|]. now apply alookup_aremove_other.
+  - apply alookup_aremove_same.
+  - intros k k' l. apply alookup_aremove_other.
+  - reflexivity.
+Qed.
+
 (* ---- the order of the observation and insertion sort --------------------------------- *)
 Lemma kv_leb_total a c : kv_leb a c = false -> kv_leb c a = true.
 Proof.
